@@ -41,6 +41,12 @@ theorem timeout_not_before_deadline (tbl : List Body) (pref : List Nat) (main : 
     notBeforeDeadline (traceOf tbl pref main n) :=
   (reach_inv InvB invB_step n _ (invB_init tbl pref main)).2.2.2
 
+/-- **removed_never_runs**: once `remove_timeout` has cancelled an armed timeout (still in the timer set, or already
+moved to the ready queue of the current iteration), that timeout's callback never runs afterwards. -/
+theorem removed_never_runs (tbl : List Body) (pref : List Nat) (main : List Act) (n : Nat) :
+    removedNeverRuns (traceOf tbl pref main n) :=
+  (reach_inv InvD invD_step n _ (invD_init tbl pref main)).2.2.2
+
 /-- **add_future_later_iteration**: an `add_callback` callback runs on the iteration right after the one that scheduled
 it, and an `add_future` callback runs on an iteration strictly later than both the `add_future` call and the
 completion of the future — also when the future was already done. -/
@@ -109,9 +115,8 @@ theorem run_sync_never_completing (ok : Bool) (t : Nat) : runSync (.awaitable no
 the invariant needed relates the sorted batch of due timers to the ghost field `moved`. -/
 def timeout_order_goal : Prop :=
   ∀ (tbl : List Body) (pref : List Nat) (main : List Act) (n : Nat), whenOrder (traceOf tbl pref main n)
-def removed_never_runs_goal : Prop :=
-  ∀ (tbl : List Body) (pref : List Nat) (main : List Act) (n : Nat),
-    removedNeverRuns (traceOf tbl pref main n) ∧ timerAtMostOnce (traceOf tbl pref main n)
+def timeout_at_most_once_goal : Prop :=
+  ∀ (tbl : List Body) (pref : List Nat) (main : List Act) (n : Nat), timerAtMostOnce (traceOf tbl pref main n)
 def timeout_all_accounted_goal : Prop :=
   ∀ (tbl : List Body) (pref : List Nat) (main : List Act) (n : Nat),
     halted (reach (init tbl pref main) n) = true → timersAccounted (traceOf tbl pref main n)
